@@ -110,6 +110,30 @@ def adt_renames(prog):
     return out
 
 
+def field_renames(prog):
+    """{new field name: reviewed field name} for fields of library structs that were renamed in place: the type is
+    still there with the same number of fields of the same types in the same order, and only names differ.  A new
+    name that is (or was) a field name anywhere else in the library is left alone (the rewrite is by name)."""
+    with open(TABLE) as fh:
+        d = json.load(fh)
+    recorded = d.get("adts") or {}
+    cur = adt_shapes(prog)
+    all_old = {f[0] for sh in recorded.values() for v in sh[1] for f in v[1]}
+    all_new = collections.Counter(f[0] for sh in cur.values() for v in sh[1] for f in v[1])
+    out = {}
+    for path, sh in sorted(cur.items()):
+        old = recorded.get(path)
+        if not old or old[0] != sh[0] or len(old[1]) != len(sh[1]):
+            continue
+        for vo, vn in zip(old[1], sh[1]):
+            if vo[0] != vn[0] or len(vo[1]) != len(vn[1]) or [f[1] for f in vo[1]] != [f[1] for f in vn[1]]:
+                continue
+            for fo, fn in zip(vo[1], vn[1]):
+                if fo[0] != fn[0] and not fn[0].isdigit() and fn[0] not in all_old and all_new[fn[0]] == 1 and all_new[fo[0]] == 0:
+                    out[fn[0]] = fo[0]
+    return out
+
+
 def signatures(prog):
     """{function: "argc|ret type|arg types"} for the library's functions (closures excluded)"""
     out = {}
